@@ -4,12 +4,13 @@ PROVED for all k, n, m and EVERY outcome of the random generator:
   * sample_clauses / sample_parities (sparse rejection sampling with a seen-set, then the dense fallback): m pairwise distinct
     clauses (parities), each over k distinct variables of 1..n (increasing; a parity with a bit) and compatible with the planted
     assignments; ValueError exactly when fewer than m exist (counting lemma: pairwise distinct valid items cannot outnumber them);
-  * all_clauses: the filtered product of the k-subsets of 1..n and the sign patterns - every compatible clause exactly once (Lean);
+  * all_clauses / all_good_parities: the filtered product of the k-subsets of 1..n and the sign patterns (resp. the two bits) -
+    every compatible clause (parity) exactly once (Lean all_clauses_spec / all_parities_spec);
   * RandomKCNF: exactly n variables, exactly those m clauses, well formed; RandomKXOR: exactly n variables, exactly m such parities,
     and the satisfying assignments are the solutions of that linear system; ValueError exactly for a negative argument, k > n or
     m above the number of compatible clauses (parities).
-ASSUMED: clause_satisfied / parity_satisfied are pure tests (psat / psatx; no exception for total planted assignments),
-all_good_parities enumerates each compatible parity once - decided by the bounded tier of C13 (small scope, scripted RNG).
+ASSUMED: clause_satisfied / parity_satisfied are pure tests (psat / psatx; no exception for total planted assignments) - what they
+compute is decided by the bounded tier of C13 (small scope, scripted RNG).
 """
 R = 'cnfgen/families/randomformulas.py'
 X_ = 'cnfgen/families/randomkxor.py'
@@ -67,11 +68,17 @@ CONTRACTS = {
     (X_, 'parity_satisfied'): {
         'assumed': 'parity_satisfied(X, b, assignments) is a pure test: psatx(X + [b]); for TOTAL planted assignments (the scope of C13) it does not raise',
         'params': {'X': 'iseq', 'b': 'int', 'assignments': 'any'}, 'returns_expr': 'psatx(isnoc(X, b))'},
+    # the dense enumeration of parities: for every k-subset X of 1..n (itertools order) the parities (X, 0) and (X, 1) that are
+    # compatible with the planted assignments; hence (Lean all_parities_spec) every compatible parity exactly once
     (X_, 'all_good_parities'): {
-        'assumed': 'all_good_parities enumerates, once each, exactly the k-parities over 1..n compatible with the planted assignments: navail_x(k, n) of them '
-                   '(decided by the bounded tier of C13)',
-        'params': {'k': 'int', 'n': 'int', 'planted_assignments': 'any'}, 'returns': 'paritylist',
-        'ensures': ['cdistinct(paug(result))', 'cvalidx(k, n, paug(result))', 'clen(paug(result)) == navail_x(k, n)']},
+        'property': ['C13'],
+        'params': {'k': 'int', 'n': 'int', 'planted_assignments': 'any'},
+        'requires': ['k >= 0', 'n >= 0'],
+        'yield_acc': 'parities', 'returns': 'paritylist', 'raises': {},
+        'loops': {0: {'inv': ['_ys == yxdom(k, n, _it)']}},
+        'ensures': ['paug(result) == yxdom(k, n, clen(combs(apseq(1, n), k)))',
+                    'cdistinct(paug(result))', 'cvalidx(k, n, paug(result))', 'clen(paug(result)) == navail_x(k, n)'],
+    },
     # the parity sampler: m pairwise distinct parities, each on k distinct variables of 1..n with a bit, compatible with the planted
     # assignments, for EVERY outcome of the random generator; ValueError exactly when fewer than m exist
     (X_, 'sample_parities'): {
